@@ -158,6 +158,8 @@ def run(an: Analysis, rep):
     rep.run(c03.r03y, an, shfold)
     rep.run(_lf.fold_rule, an, shfold)
     rep.run(c11.r115, an, shfold)
+    rep.run(lambda a_, r_: c04.r04f(a_, r_, roundtrip=True), an, SharedRules(rep, "R01.Y", "from_code then to_code folded over witness code objects of every kind of scope (C04's R04.W witnesses): every argument "
+                                                                             "handed to CodeType equals the co_* attribute of the witness - the round trip itself, on a finite witness set"))
     rep.run(c10.format_rules, an, SharedRules(rep, "R01.L", "line-table format constants (shared with C10's R10.*): byte equality of co_lnotab / co_linetable needs them"))
     rep.run(c02.jump_rules, an, SharedRules(rep, "R01.J", "jump scale / offsets / cell-free shift on both sides (shared with C02's R02.3-R02.5): byte equality of co_code needs them"))
     for (cq, fname), (ok, cfg, why, where) in sorted(produced_any.items()):
